@@ -152,7 +152,7 @@ def sibling_unique(ch, par, names, ic):
 
 
 def patterns_for(rng, snames, sep, n_abs_from):
-    pool = list(snames) + ["*", "*", "?", "??", "**", "**", "..", "..", ".", "", "nope", "*.*", "[a]*", "a*", "*b", "?*"]
+    pool = list(snames) + ["*", "*", "?", "??", "**", "**", "..", "..", ".", "", "nope", "*.*", "[a]*", "a*", "*b", "?*", "*?", "?*?", "a?*", "??*", "*??"]
     for nm in snames[:6]:
         if len(nm) >= 1:
             i = rng.randrange(len(nm))
@@ -184,7 +184,7 @@ def run(ctx):
     T = ctx.tier == "thorough"
     idx = 0
     hkinds = ("plain", "burst", "opposite")
-    alphabet = ["a", "b", "*", "?", "a*", "**", "..", "zz", "."]
+    alphabet = ["a", "b", "*", "?", "a*", "a?*", "**", "..", "zz", "."]
     pats = []
     for ln in (1, 2, 3):
         for comps in itertools.product(alphabet, repeat=ln):
